@@ -76,6 +76,6 @@ CONTRACTS = {
                                                         BF('span - j + head_r + 1', 'j - 1')),
                            ]),
         },
-        timeout_ms=20000,
+        timeout_ms=20000, chunks=3,
     ),
 }
